@@ -791,6 +791,8 @@ def with_stmt(E, n):
     for item in n.items:
         d = dotted(item.context_expr.func) if isinstance(item.context_expr, ast.Call) else dotted(item.context_expr)
         ext = E.c.externals.get(d) if d else None
+        if ext is None and isinstance(item.context_expr, ast.Call) and isinstance(item.context_expr.func, ast.Attribute):
+            ext = E.c.externals.get("*." + item.context_expr.func.attr)  # context manager of an untyped object, declared by method name
         if ext is not None and ext.get("with") == "transparent":
             if item.optional_vars is not None:
                 E.assign(item.optional_vars, E.symbolic("ctx", parse_type(ext.get("returns", "any"))))
@@ -1435,6 +1437,9 @@ def external_call(E, name, ext, e, recv=None, args=None, kwargs=None):
     env.update({k: v for k, v in st.vars.items() if k in ("self",)})
     for j, r in enumerate(ext.get("requires", [])):
         E.oblige("ext-pre", E.spec(r, extra=env), f"{name}/{j}")
+    # ghost assertions of the contract at this call site (the caller's locals are in scope)
+    for j, r in enumerate(E.c.d.get("at_call", {}).get(name, [])):
+        E.oblige("at-call", E.spec(r, extra=env), f"{name}/{j}")
     saved_entry_ext = None
     if ext.get("modifies_args"):
         # the external may change the listed argument objects: snapshot (for old(..) in its ensures), frame check, havoc
@@ -1506,6 +1511,9 @@ def external_call(E, name, ext, e, recv=None, args=None, kwargs=None):
     try:
         for r in oc.get("ensures", []):
             st.pc.append(E.spec(r, extra=env2))
+        if ext.get("ghost_update"):
+            gname, gexpr = ext["ghost_update"]
+            st.vars[gname] = E.spec_value_env(gexpr, env2)
     finally:
         if saved_entry_ext is not None:
             st.labels["entry"] = saved_entry_ext
@@ -1894,6 +1902,14 @@ def container_method(E, recv, name, e):
         return str_method(E, recv, name, args, e)
     if t == "any" and ("*." + name) in E.c.externals:
         return external_call(E, "*." + name, E.c.externals["*." + name], e, recv, args, kwargs)  # a method of an untyped object, declared by method name
+    if t == "any" and name == "pop" and args:
+        # d.pop(k, default) on an untyped mapping: the value (the removal itself is not tracked for untyped values)
+        has = z3.And(recv.z != 0, z3.Function("any_has", I, I, B)(recv.z, args[0].z))
+        val = any_item(E, recv, args[0])
+        dflt = args[1] if len(args) > 1 else NONE
+        if dflt.ty in ("none", "any", "str"):
+            return V("any", z3.If(has, val.z, dflt.z if dflt.ty != "none" else z3.IntVal(0)))
+        return V("any", z3.If(has, val.z, E.coerce(dflt, "any").z))
     if t == "any":
         if name == "get":
             has = z3.And(recv.z != atom("{}"), recv.z != 0, z3.Function("any_has", I, I, B)(recv.z, args[0].z))
